@@ -147,6 +147,66 @@ def validate_trace(driver, tr):
     return None
 
 
+def fine_labels(tr):
+    """The labels of the FINE model (Model/EngineFine.lean) this run corresponds to: the real acquisitions and releases of
+    remaining_pred_count_lock are in `tr.fine`; the decrement, the test and the put of the block happened, in the real run,
+    without a switch in between (scheduling at primitives), at the moment the coarse `release` label of a multi-parent
+    successor was emitted — other threads' labels between the acquisition and that moment, and between it and the release of
+    the lock, are where they really happened."""
+    out, holder = [], {}
+    for lab in tr.fine:
+        t = lab.split()
+        if t[0] == "acq":
+            holder[t[1]] = t[2]
+            out.append("acq %s %s" % (t[1], t[2]))
+        elif t[0] == "unl":
+            holder.pop(t[1], None)
+            out.append("unl %s" % t[1])
+        elif t[0] == "release" and t[1] in holder:
+            out += ["dec %s" % t[1], "test %s" % t[1], "put %s" % t[1]]
+        else:
+            out.append("b " + lab)
+    return out
+
+
+def fine_interleaved(tr):
+    """number of lock blocks of this run during which another thread took a step of its own"""
+    n, open_, dirty = 0, {}, set()
+    for lab in fine_labels(tr):
+        t = lab.split()
+        if t[0] == "acq":
+            open_[t[1]] = True
+        elif t[0] == "unl":
+            if t[1] in dirty:
+                n += 1
+            dirty.discard(t[1])
+            open_.pop(t[1], None)
+        elif t[0] == "b":
+            for w in open_:
+                if len(t) < 3 or t[2] != w:
+                    dirty.add(w)
+    return n
+
+
+def validate_fine(driver, tr):
+    """Replay the run through the fine model's `step2?`: every label must be enabled, and the final state must show the same
+    begun / completed / failed lists as the coarse replay."""
+    me = "none" if tr.max_errors is None else str(tr.max_errors)
+    w = eng.coerce_worker_count(tr.worker_count)
+    labs = fine_labels(tr)
+    line = "fine %d %s | %s | %s | %s" % (w, me, " ".join(map(str, range(len(tr.nodes)))),
+                                         " ".join("%d,%d" % e for e in tr.edges), " ; ".join(labs))
+    out = driver.batch([line])[0]
+    if not out.startswith("ok "):
+        return {"layer": "engine-fine", "model": out[:300], "labels": labs[-14:]}
+    coarse = parse_state(final_model_state(driver, tr))
+    fine = parse_state(out)
+    diff = {k: (coarse.get(k), fine.get(k)) for k in ("begun", "okd", "failed", "skipped", "q", "unf", "stop", "errs") if coarse.get(k) != fine.get(k)}
+    if diff:
+        return {"layer": "engine-fine", "differs(coarse,fine)": diff}
+    return None
+
+
 def parse_state(line):
     import re
     return {m.group(1): m.group(2) for m in re.finditer(r"(\w+)=(\[[^\]]*\]|\S+)", line)}
@@ -304,6 +364,11 @@ def explore_engine(ctx, props, n_prim, n_op, n_intr=0, p_template=0.15, op_switc
                 d = validate_trace(ctx.driver, tr)
                 stats["traces_validated_against_impl"] += 1
                 stats["labels_replayed"] += len(tr.labels)
+                if d is None:
+                    d = validate_fine(ctx.driver, tr)
+                    stats["fine_traces_validated"] = stats.get("fine_traces_validated", 0) + 1
+                    stats["fine_lock_blocks"] = stats.get("fine_lock_blocks", 0) + sum(1 for x in tr.fine if x.startswith("acq "))
+                    stats["fine_blocks_interleaved"] = stats.get("fine_blocks_interleaved", 0) + fine_interleaved(tr)
                 if d:
                     d["case"] = case
                     d["seed"] = seed
